@@ -313,7 +313,25 @@ def oracle_window(c, idx, q):
     """absolute [lo, hi) of a proper window on a contiguous view, else None (specification silent)"""
     ws, we, _ = q
     n = len(idx)
-    if n == 0 or not is_contiguous(c, idx):
+    if n and not is_contiguous(c, idx):
+        # strided view, whole-view query: the db window is [first, first + n * stride), mirrored on a
+        # reversed view and clipped at 0 (theorem strided_query_window); the stride is the product of
+        # the slice steps of the history
+        if ws is not None or we is not None:
+            return None
+        stride = 1
+        rev = False
+        for op in c["ops"]:
+            if op[0] == "rc":
+                rev = not rev
+            elif op[0] not in ("copy", "copyU", "deepcopy"):
+                stride *= abs(op[3] or 1)
+        if rev:
+            hi = c["off"] + max(idx) + 1
+            return max(hi - n * stride, 0), hi
+        lo = c["off"] + min(idx)
+        return lo, lo + n * stride
+    if n == 0:
         return None
     if we == 0 and ws is not None:
         return None
@@ -568,7 +586,7 @@ def aln_oracle(c):
         disp = [i for i, k in enumerate(colof) if k in cset]   # residues of the row the view displays
         present = bool(disp) and spans[0][0] < max(disp) + 1 and min(disp) < spans[-1][1]
         lo = min(disp) if disp else None
-        out.append(dict(present=present, row_empty=not disp, slice=sl, minus=(minus != rev), retained=len(keep),
+        out.append(dict(present=present, row_empty=not disp, slice=sl, minus=(minus != rev), retained=len(keep), ncols=len(cols),
                         abuts=(lo is not None and any(b == lo for a, b in spans)),
                         proj={nm: v.replace("-", "") for nm, v in sl.items() if nm != sid}))
     return out, rev
@@ -669,6 +687,15 @@ def evaluate_aln(rep, cases, stats, fx=PINNED, dis=None):
                         stats["nontrivial"].add(json.dumps([c["rows"], c["ops"], f]))
             mm = norm_aln_model(mr[k]) if isinstance(mr, list) and k < len(mr) else mr
             gi = norm_aln_impl(g, c, f)
+            # monitored hypothesis of theorem aln_feature_slice_rows: the coordinate ranges of the
+            # alignment-level map are non-empty, ascending and inside the alignment view
+            if isinstance(g, dict) and "coords" in g and dis is not None:
+                cs = g["coords"]
+                ok_spans = (all(a < b for a, b in cs) and all(cs[i][1] <= cs[i + 1][0] for i in range(len(cs) - 1))
+                            and (not cs or (cs[0][0] >= 0 and cs[-1][1] <= e["ncols"])))
+                if not ok_spans:
+                    dis.append(dict(key="alignment:span-hypothesis", case=small, observed_impl=g["coords"],
+                                    broken="hypothesis segs_ok of theorem aln_feature_slice_rows does not hold for this map"))
             if key:
                 stats["violations"] += 1
                 rep.violation(key, dict(case=small, expected_by_spec=e, observed_impl=g, model_output=jsonable(mm),
@@ -868,8 +895,9 @@ def run(tier: str, seed: int) -> int:
         "fm_inverse_spec, spans_tiled, row_slice_python, row_rc_spec); both model and oracle are compared with the implementation",
     ])
     rep.assumptions += [
-        "theorems: well-formed view with |step| = 1 (every history of unit-step slices, rc and copy gives one), annotation "
-        "offset >= 0, feature spans sorted, disjoint, non-empty at absolute coordinates >= 0, query window 0 <= s < e <= len(view); "
+        "theorems: well-formed views (|step| = 1 for membership / coordinates / add_feature; any stride for the slice), every "
+        "history of slices, rc, copy, deepcopy; annotation offset >= 0, feature spans sorted, disjoint, non-empty at absolute "
+        "coordinates >= 0; windows written in any way that lands inside the view; "
         "the db side (sqlite WHERE) enters through the two coordinate clauses proved equivalent to interval overlap / containment"]
     cases = build_cases(tier, seed)
     rng_a = random.Random(seed * 7907 + 41)
@@ -898,22 +926,24 @@ def run(tier: str, seed: int) -> int:
              "is returned, its slice is non-empty and equals the position-set oracle",
         samples=[dict(case=sample)],
         input_distribution=dict(cases=len(cases), blocks=dist),
-        partial=["alignment level (old-style Alignment; this tree has no new-style Alignment): get_features(seqid), the "
-                 "alignment-level map, get_projected_feature are modelled (Model/AnnotAln.v on the C08/C03 models) and proved at the "
-                 "level of cells (which column / position every cell reads) and of the row string read at those columns; how the "
-                 "cells are grouped into spans and the per-row strings of Feature.get_slice() on the alignment (C03 "
-                 "row_getitem_locs) are tied by correspondence + oracle only; allow_partial=False on alignments not exercised",
-                 "strided views (|step| > 1) and negative / swapped / out-of-range query windows: model-vs-implementation "
-                 "correspondence, slice oracle only (the theorems assume |step| = 1 and a proper window)",
-                 "parent coordinates of feature.get_slice(): proved for the repaired variant when the one-span feature lies "
-                 "inside the view (slice_coords_repaired), pinned defect by witness; partly-inside features by correspondence + oracle",
-                 "add_feature through a view: proved end to end for the repaired variant on the view it is added to "
-                 "(add_feature_end_to_end); what the root / other views then return follows from feature_slice_spec for the "
-                 "stored record, and is additionally covered by correspondence + oracle",
-                 "copies: seq.copy() is proved (history_with_copies), seq.copy(sliced=False) / copy.deepcopy are the [:] step of "
-                 "the proved histories; Alignment.deepcopy(sliced) / copy() are modelled and compared but not in a theorem; "
-                 "old-style SequenceCollection rc / deepcopy / copy: oracle only; new-style SequenceCollection.rc() documents "
-                 "that it drops the annotation db (not covered); degap, rename: not covered"],
+        partial=["alignment level (old-style Alignment; no new-style Alignment on this tree): membership, the cells of the "
+                 "alignment-level map, that its spans are forward runs of exactly those cells, get_projected_feature, own-row "
+                 "round trip and the row string at the feature's columns are proved for every history of slices, rc, "
+                 "deepcopy(sliced) and copy(); the per-row strings of Feature.get_slice() are proved (aln_feature_slice_row_strings) "
+                 "under the hypothesis that the map's coordinate ranges are non-empty and ascending, which this check monitors on "
+                 "every alignment feature (key alignment:span-hypothesis) but does not derive; "
+                 "allow_partial=False on alignments not exercised",
+                 "strided views: relative coordinates, query window (overshoot < one stride) and the slice are proved for any "
+                 "stride; membership on strided views follows from the window theorem + the db clauses and is checked by the oracle",
+                 "query windows: proved for every way of writing an in-range window (omitted, 0, negative, swapped) and for the "
+                 "IndexError outside; empty windows (lo = hi) only by correspondence",
+                 "parent coordinates of feature.get_slice(): proved for a one-span feature inside the view (repaired variant); "
+                 "partly-inside features by correspondence + oracle",
+                 "add_feature through a view: proved end to end on the view it is added to; other views via feature_slice_spec "
+                 "for the stored record, additionally correspondence + oracle",
+                 "old-style SequenceCollection rc / deepcopy / copy: per-member statement copies_preserve_features_seq, the "
+                 "collection plumbing by oracle only; new-style SequenceCollection.rc() documents that it drops the annotation "
+                 "db (not covered); degap, rename: not covered"],
         model_impl_disagreements=len(dis), spec_violations=stats["violations"], exhaustive=False,
         model_variant=stats["model_variant"],
     )
